@@ -14,13 +14,57 @@ SPEC = {
 }
 
 BYTES = [".", "00", "0102", "ff" * 32, "ab" * 255]
+LAST = {}      # variable kind -> the record most recently generated (for single-field variants)
+
+
+def variant(rng, r):
+    """a copy of record r differing in exactly one field - for the address, also in representation only
+       (a.b.c.d against ::ffff:a.b.c.d, 127.0.0.1 against ::1), which are different field values"""
+    import copy, struct
+    v = copy.copy(r)
+    v.attrs = dict(r.attrs)
+    f = rng.choice(["addr", "addr", "addr", "name", "type", "target", "next", "prio", "weight", "port", "attrs", "bitmap", "ttl", "flush", "none"])
+    if f == "addr":
+        if r.addr is not None and len(r.addr) == 4:
+            v.addr = rng.choice([b"\x00" * 10 + b"\xff\xff" + r.addr, b"\x00" * 12 + r.addr, None, bytes([r.addr[0] ^ 1]) + r.addr[1:]])
+        elif r.addr is not None and r.addr[:12] == b"\x00" * 10 + b"\xff\xff":
+            v.addr = r.addr[12:]
+        else:
+            a4 = bytes(rng.randrange(256) for _ in range(4))
+            v.addr = rng.choice([a4, b"\x00" * 10 + b"\xff\xff" + a4, b"\x7f\x00\x00\x01", b"\x00" * 15 + b"\x01", None])
+    elif f == "name":
+        v.name = (r.name or b"") + b"a."
+    elif f == "type":
+        v.type = rng.choice([t for t in (1, 28, 12, 16, 33, 47) if t != r.type])
+    elif f == "target":
+        v.target = b"t." if r.target != b"t." else b"u."
+    elif f == "next":
+        v.next = b"n." if r.next != b"n." else b"m."
+    elif f in ("prio", "weight", "port"):
+        setattr(v, f, (getattr(r, f) + 1) % 65536)
+    elif f == "attrs":
+        v.attrs[b"zz"] = None if v.attrs.get(b"zz", b"") is not None else b""
+    elif f == "bitmap":
+        v.bitmap = r.bitmap + b"\x01" if len(r.bitmap) < 255 else b""
+    elif f == "ttl":
+        v.ttl = (r.ttl + 1) % 2 ** 32
+    elif f == "flush":
+        v.flush = not r.flush
+    return v
 
 
 def rand_value_op(rng, v, kind):
     if kind == "bitmap":
         return "SETBYTES %s %s" % (v, rng.choice(BYTES))
     if kind == "record":
-        r = G.rand_record(rng, G.name_pool(rng, 2))
+        if "record" in LAST and rng.random() < 0.45:
+            r = variant(rng, LAST["record"])
+        else:
+            r = G.rand_record(rng, G.name_pool(rng, 2))
+            if rng.random() < 0.3:
+                a4 = bytes(rng.randrange(256) for _ in range(4))
+                r.addr = rng.choice([a4, b"\x00" * 10 + b"\xff\xff" + a4])
+        LAST["record"] = r
         return "SETREC %s %s" % (v, r.tok())
     if kind == "message":
         return "SETMSG %s %s" % (v, G.gen_message(rng).tok())
@@ -32,6 +76,7 @@ def rand_value_op(rng, v, kind):
 
 def gen_program(rng, n):
     kind = rng.choice(["bitmap", "bitmap", "record", "record", "message", "query", "service"])
+    LAST.clear()
     names = ["a", "b", "c", "d"]
     live = set()
     lines = []
